@@ -70,6 +70,22 @@ claim("C13", "proof",
       "DESIGN.md section 6, C13")
 HOOK_COMMITS.append("a30cf9a")
 
+claim("C11", "proof",
+      "Coq theorems over the task-pool model shared by the three worker loops (octree build, index assignment, dual walk): "
+      "every processing order any schedule of any number of workers can produce visits each cell once, parents first; while "
+      "a cell is unprocessed a task is available (no deadlock); at most |cells| task steps, every run can be completed; the "
+      "done flag is raised exactly when every cell has been processed (never early, always at the end); once cancel or done is "
+      "set each worker leaves after at most the body it is in; the repaired Mesh::render returns no mesh or a mesh whose "
+      "index assignment and walk both completed, for every placement of the flag, with the code before the repair refuted.  "
+      "Tie: LIBFIVE_VERIF schedule points: one-worker visit counts equal the model's cell count (1 + 8 x ambiguous cells), one "
+      "visit per phase marker.  Oracle: systematic cancellation at the k-th visit of each named site (k swept, every k on small "
+      "one-worker runs), 3 algorithms, workers 1..16: returns within the watchdog, null or a mesh equal in size and closedness "
+      "to the uncancelled one; uncancelled renders always return a mesh.",
+      "Trusted: Coq kernel (no axioms); the schedule-point hook (guarded, add-only); OS interleavings around the injection "
+      "point are sampled, the theorems cover all orders; 'bounded time' = at most one loop body per worker + 20 s wall-clock check.",
+      "Coq proof (scheduling invariants over all task orders) + hook-based systematic fault injection",
+      "DESIGN.md section 6, C11")
+
 claim("C12", "proof",
       "Partial: the floating-point environment lives in hardware state and Boost's rounding policies, which are observed, "
       "not modelled from source.  Coq theorem: if every primitive of the table restores the environment then every call "
